@@ -1,6 +1,7 @@
 SPECIFICATION Spec
 CONSTANTS
   MaxDet = 2
+  EqualLabels = TRUE
   Emit = FALSE
 INVARIANT SwapInvolution
 INVARIANT ProbeNeutral
